@@ -54,6 +54,9 @@ type c19World struct {
 	order   []*c19Sess
 	chBy    map[string]*c19Sess // decoded opaque -> session that obtained it
 	tokBy   map[string]*c19Sess // decoded token  -> session that obtained it
+	sigs    map[string]struct{} // every signature produced by a key holder in this run (recorded or crafted)
+	variant []string            // accepted requests whose verifying signature is none of those (signature malleability)
+	nvar    int
 }
 
 func c19SessKey(flow, kt string, ci, srv, host, rep int) string {
@@ -64,8 +67,8 @@ func c19NewWorld() *c19World {
 	ks := c19NewKeys()
 	secA := []byte("c19-hmac-secret-A-0123456789abcdef")
 	secB := []byte("c19-hmac-secret-B-fedcba9876543210")
-	k0, k1 := ks.get("ed25519", "server0"), ks.get("secp256k1", "server1")
-	return &c19World{keys: ks, sess: map[string]*c19Sess{}, chBy: map[string]*c19Sess{}, tokBy: map[string]*c19Sess{},
+	k0, k1 := ks.get("ed25519", "server0"), ks.get("ecdsa", "server1")
+	return &c19World{keys: ks, sess: map[string]*c19Sess{}, chBy: map[string]*c19Sess{}, tokBy: map[string]*c19Sess{}, sigs: map[string]struct{}{},
 		servers: []*c19Server{
 			{label: "S0(key0,secretA,ttl=1h)", key: k0, secretID: 0, secret: secA, ttl: time.Hour},
 			{label: "S1(key1,secretB,ttl=2m)", key: k1, secretID: 1, secret: secB, ttl: 2 * time.Minute},
@@ -127,6 +130,9 @@ func (w *c19World) record(flow, kt string, ci, srv, host, rep int) (*c19Sess, er
 	s.opaque = c19MustDec(ov)
 	tv, _ := c19Get(c19ParseHonest(s.a3), "bearer")
 	s.token = c19MustDec(tv)
+	if sv, ok := c19Get(c19ParseHonest(s.a2), "sig"); ok {
+		w.sigs[string(c19MustDec(sv))] = struct{}{}
+	}
 	if s.cc == "" || len(s.opaque) < 33 || len(s.token) < 33 {
 		return nil, fmt.Errorf("recorded session incomplete: %+v", s)
 	}
@@ -160,6 +166,14 @@ func (w *c19World) justify(y *c19Server, host string, authz []string, now time.T
 		data := c19ClientSigData(s.cc, y.key.pubBytes, host)
 		for sg := range cands {
 			if len(sg) >= 32 && len(sg) <= 600 && c19Verify(k, data, []byte(sg)) {
+				if _, known := w.sigs[sg]; !known {
+					// the key's Verify accepts bytes its holder never produced (the primitive is trusted here:
+					// "a signature valid under that peer's public key"); counted and reported, not a violation
+					w.nvar++
+					if len(w.variant) < 3 {
+						w.variant = append(w.variant, fmt.Sprintf("%s key, %d-byte signature", k.kt, len(sg)))
+					}
+				}
 				return true, "challenge " + s.name()
 			}
 		}
@@ -414,6 +428,7 @@ func (w *c19World) genServerCases(s *c19Sess, o c19GenOpts, emit func(c c19Case,
 								if err != nil {
 									panic("c19 harness: signing failed: " + err.Error())
 								}
+								w.sigs[string(sig)] = struct{}{}
 								return []string{c19Build([]c19Param{{"opaque", c19B64(blb)}, {"sig", c19B64(sig)},
 									{"public-key", c19B64(signer.pubBytes)}, {"challenge-server", "Y3JhZnRlZC1jaGFsbGVuZ2Utc2VydmVyLTAxMjM0NTY3ODk="}})}
 							})
@@ -508,6 +523,11 @@ func TestVerifC19Server(t *testing.T) {
 		return
 	}
 
+	if os.Getenv("VERIF_C19_DUMP") != "" {
+		for _, s := range w.order {
+			t.Logf("session %s a2=%x len=%d clientid=%s", s.name(), c19Hash(s.a2), len(s.a2), s.client.id)
+		}
+	}
 	opts := c19GenOpts{masks: []byte{0x01, 0x80, 0xff}}
 	if vrep.Thorough() {
 		opts.masks = []byte{0x01, 0x02, 0x04, 0x08, 0x10, 0x20, 0x40, 0x80, 0xff}
@@ -565,8 +585,15 @@ sessions:
 				now := time.Now()
 				for i := range cases {
 					c := &cases[i]
-					if !vrep.Thorough() && c19ByteFamily(c.kind) && !(off == 0 || off == c19ChallengeTTL+time.Nanosecond || off == w.servers[s.srv].ttl+time.Nanosecond) {
-						continue
+					if !vrep.Thorough() && c19ByteFamily(c.kind) {
+						// quick tier: the byte-level families only fresh and just after the expiry that applies to them
+						after := c19ChallengeTTL + time.Nanosecond
+						if c.step == 3 {
+							after = w.servers[s.srv].ttl + time.Nanosecond
+						}
+						if !(off == 0 || (off == after && c.step > 1)) {
+							continue
+						}
 					}
 					key := c19Hash(fmt.Sprint(c.pkey), fmt.Sprint(int64(off)))
 					if _, dup := seen[key]; dup && !c.base {
@@ -619,6 +646,9 @@ sessions:
 	}
 	_ = capped
 	r.Bounds["mutation_kinds_executed"] = len(kinds)
+	if w.nvar > 0 {
+		r.Note("%d accepted requests carried a signature that is not byte-identical to any signature a key holder produced but that the key type's Verify accepts (e.g. %v): same peer, counted as proven", w.nvar, w.variant)
+	}
 	r.Note("cases generated (all shards, before de-duplication, per time offset): %d; reports checked against the reference decision: %d", generated, sigChecks)
 	if os.Getenv("VERIF_C19_DUMP") != "" {
 		b, _ := json.MarshalIndent(detail, "", " ")
